@@ -1088,11 +1088,23 @@ fn gen_sk_n(r: &mut Rng) -> String {
         layers.push(layer_lit(r, &groups));
         t = tgt_of(&groups);
     }
-    // malformed: drop a term, or swap two layers
-    if r.chance(1, 12) {
-        if r.bool() && layers.len() >= 2 { let k = layers.len(); layers.swap(0, k - 1); }
-        else { let k = r.below(layers.len() as u64) as usize; let mut ts: Vec<&str> = layers[k][2..].split(" ; ").collect(); if ts.len() > 1 { ts.remove(0); } layers[k] = format!("N {}", ts.join(" ; ")); }
+    // malformed: drop a term, swap two layers, or replace a layer by cylinders over other labels (same number of middle
+    // components, none of them contained: is_stackable must look at the components, not only at their number)
+    if r.chance(1, 10) {
+        match r.below(3) {
+            0 if layers.len() >= 2 => { let k = layers.len(); layers.swap(0, k - 1); }
+            1 => { let k = r.below(layers.len() as u64) as usize; let mut ts: Vec<&str> = layers[k][2..].split(" ; ").collect(); if ts.len() > 1 { ts.remove(0); } layers[k] = format!("N {}", ts.join(" ; ")); }
+            _ => {
+                let k = 1 + r.below(layers.len() as u64 - 1) as usize;
+                let n = layers[k].matches(" a ").count() + layers[k].matches(" c ").count();
+                let m = 1 + r.below(3) as usize;
+                let ts: Vec<String> = (0..m.min(n.max(1))).map(|i| format!("id c {}", 900 + i)).collect();
+                layers[k] = format!("N {}", ts.join(" ; "));
+            }
+        }
     }
+    // an empty layer in between (the shortcuts of Cob::stack)
+    if r.chance(1, 10) { let k = r.below(layers.len() as u64 + 1) as usize; layers.insert(k, "N".into()); }
     for l in layers.iter() {
         ops.push(format!("L {}", l));
         if r.chance(1, 4) { ops.push("ID".into()); }
@@ -1245,6 +1257,12 @@ fn fixed_cases() -> Vec<String> {
         "sk L N id a 0 1 // ST // L N id a 2 3 // ST // AS".into(),
         "sk L N cup c 1 // ST // L N id c 1 ; id c 1 // ST".into(),
         "sk L N id c 1 ; id c 2 // ST // L N n c 1 , c 2 > c 3 @ 0 0 0 ; id c 1 // ST // AS".into(),
+        // same number of middle components, other components: is_stackable = false
+        "sk L N id c 1 ; id c 2 // ST // L N id c 1 ; id c 3 // ST // AS".into(),
+        "sk L N id a 1 2 ; id c 3 // ST // L N id a 1 2 3 ; id c 3 // ST".into(),
+        // the empty cobordism on either side
+        "sk L N id c 1 // ST // L N // ST // L N id c 1 // ST // AS // ID // INV".into(),
+        "sk L N // ST // L N // ST // AS // SRC // ID // INV // PE 1 1".into(),
     ];
     // every table diagram, every complete resolution of the small ones
     for (_, pd) in table_knots() {
